@@ -1,0 +1,11 @@
+//go:build verif
+
+package cache
+
+// This file is only built with the "verif" build tag. It lets the external
+// verification harness run one expiry sweep with a chosen clock reading.
+
+import "time"
+
+// VerifGC runs the cleaner's sweep once, as if the ticker had fired at now.
+func (c *Cache[K, V]) VerifGC(now time.Time) { c.gc(now) }
